@@ -132,6 +132,8 @@ pub struct FnSig {
     pub plain_res: bool,
     pub uses_t: bool,
     pub uses_l: bool,
+    /// conversion targets this function's translation rests on, directly or through its callees
+    pub contracts: Vec<String>,
 }
 
 pub struct Tr<'a> {
@@ -178,6 +180,8 @@ pub struct Tr<'a> {
     pub uses_l: bool,
     /// cargo features that are on for this target
     pub features: Vec<String>,
+    /// conversion targets whose theorem this translation rests on (`need_contract`)
+    pub contracts: BTreeSet<String>,
 }
 
 #[derive(Clone, Debug)]
@@ -508,8 +512,25 @@ impl<'a> Tr<'a> {
         self.unsup(format!("no wrapping `impl From<ParserError> for {}` found in {}", name, ef))
     }
 
+    /// A call site that uses the `pack` / `unpack` contract rests on the conversion target that is translated from the
+    /// conversion's own source text: it must have been translated, and the report names it so that the caller's tie is only
+    /// counted when the conversion's theorem is proved too.
+    pub fn need_contract(&mut self, target: &str) -> R<()> {
+        if self.target.lean == target {
+            return Ok(());
+        }
+        if !self.done.contains_key(target) {
+            let why = self.failed.get(target).cloned().unwrap_or_else(|| "not a configured target".to_string());
+            return self.unsup(format!("rests on the conversion {} which is untranslated ({})", target, why));
+        }
+        self.contracts.insert(target.to_string());
+        Ok(())
+    }
+
     pub fn self_named(&mut self) -> R<Ty> {
         match self.self_ty.clone() {
+            Some(s) if s == "u32" || s == "u64" => Ok(Ty::UInt),
+            Some(s) if s == "Option<u64>" || s == "Option<u32>" => Ok(Ty::Opt(Box::new(Ty::UInt))),
             Some(s) => self.named(&s),
             None => self.unsup("`Self` outside an impl"),
         }
